@@ -417,4 +417,11 @@ def R6_array_grid(run):
                   detail="!valid start => InvalidStartTick, before start_tick_index is stored")
 
 
-RULES = [R1_loaders, R2_proxy_and_order, R3_search_siblings, R4_sequence, R5_loop_cursor, R6_array_grid]
+def R7_cross_checks(run):
+    run.title("R7", 'supplemental tick arrays reach the builder of their own pool (C15.R5b instances: a remaining-accounts slice of type X only fills the field named after X)')
+    from rules.common import RuleProxy
+    from rules import C15
+    C15.R5b_remaining_accounts(RuleProxy(run, 'R7'))
+
+
+RULES = [R1_loaders, R2_proxy_and_order, R3_search_siblings, R4_sequence, R5_loop_cursor, R6_array_grid, R7_cross_checks]
